@@ -393,6 +393,10 @@ func (s *vSession) buildMsg(spec string) ([]byte, error) {
 		s.pwds[k] = true
 		setters = append(setters, stun.NewShortTermIntegrity(vPwd(k)))
 	}
+	// attributes placed AFTER MESSAGE-INTEGRITY (not covered by the HMAC; RFC 5389 says they must be ignored)
+	if strings.Contains(m["post"], "uc") {
+		setters = append(setters, UseCandidate())
+	}
 	if m["fp"] != "0" {
 		setters = append(setters, stun.Fingerprint)
 	}
